@@ -34,6 +34,51 @@ var allowedErrFields = map[string]string{
 
 var onlyTypeVerbs = regexp.MustCompile(`%[^%T]`)
 
+// plainVerbsOnly: a format made of literal text and the flag-less verbs %s %v %q %d %T %% only.
+var plainVerbsOnly = regexp.MustCompile(`^([^%]|%[svqdT%])*$`)
+
+// variadicOperands returns the values stored into the []interface{} a variadic call site builds
+// (new [n]interface{}; t[i] = make interface <- v; slice t[:]), with the interface conversion removed.
+// ok is false when the slice is not such a literal (a caller-supplied args... slice).
+func variadicOperands(v ssa.Value) ([]ssa.Value, bool) {
+	if c, ok := v.(*ssa.Const); ok && c.IsNil() {
+		return nil, true
+	}
+	sl, ok := v.(*ssa.Slice)
+	if !ok || sl.Low != nil || sl.High != nil {
+		return nil, false
+	}
+	al, ok := sl.X.(*ssa.Alloc)
+	if !ok {
+		return nil, false
+	}
+	var out []ssa.Value
+	for _, r := range *al.Referrers() {
+		switch y := r.(type) {
+		case *ssa.Slice:
+			if y != sl {
+				return nil, false
+			}
+		case *ssa.IndexAddr:
+			for _, rr := range *y.Referrers() {
+				st, isSt := rr.(*ssa.Store)
+				if !isSt || st.Addr != ssa.Value(y) {
+					return nil, false
+				}
+				val := st.Val
+				if mi, ok := val.(*ssa.MakeInterface); ok {
+					val = mi.X
+				}
+				out = append(out, val)
+			}
+		case *ssa.DebugRef:
+		default:
+			return nil, false
+		}
+	}
+	return out, true
+}
+
 func runC20(c *Ctx) {
 	p := c.P
 	ee := p.Func("common/log:ElideError")
@@ -344,6 +389,18 @@ func scrubbedOnly(p *Prog, v ssa.Value, depth int) string {
 		case "fmt.Sprintf":
 			if f, ok := constString(cm.Args[0]); ok && !onlyTypeVerbs.MatchString(f) {
 				return ""
+			}
+			// "%s"-style formatting of operands that are each scrubbed text is the same text a
+			// concatenation would give: judge every operand of the variadic slice by the same rule
+			if f, ok := constString(cm.Args[0]); ok && plainVerbsOnly.MatchString(f) && len(cm.Args) == 2 {
+				if ops, ok := variadicOperands(cm.Args[1]); ok {
+					for _, o := range ops {
+						if b := scrubbedOnly(p, o, depth+1); b != "" {
+							return b + " (operand of fmt.Sprintf at " + p.InstrPos(x) + ")"
+						}
+					}
+					return ""
+				}
 			}
 			return "fmt.Sprintf with a verb other than %T at " + p.InstrPos(x)
 		}
